@@ -8,8 +8,8 @@ from .props_h1 import TRUSTED
 PIGEON = os.path.join(core.BIN, "pigeon")
 
 
-def run_tool(tool, seed, n, extra=(), lift=None, timeout=3600, outdir=None, pigeon=True):
-    outdir = outdir or os.path.join(core.BUILD, "work", "tool_" + tool)
+def run_tool(tool, seed, n, extra=(), lift=None, timeout=3600, outdir=None, pigeon=True, prop=""):
+    outdir = outdir or os.path.join(core.BUILD, "work", "tool_%s_%s%s" % (tool, prop, "_lift" if lift else ""))
     shutil.rmtree(outdir, ignore_errors=True)
     os.makedirs(outdir, exist_ok=True)
     cmd = [core.need_tool(tool), "-seed", str(seed), "-n", str(n), "-out", outdir] + (["-pigeon", PIGEON] if pigeon else [])
@@ -64,7 +64,7 @@ def generic(prop, cfg, tier, seed, parts, extra_viol=(), extra_cov=None, extra_k
         rep("proof-obligation", {"module": cfg["module"], "problems": audit["problems"]}, False)
     for tool, nq, nt, extra, lifts in parts:
         n = nq if tier == "quick" else nt
-        r = run_tool(tool, seed, n, extra, pigeon=(tool != "pvopt"))
+        r = run_tool(tool, seed, n, extra, pigeon=(tool != "pvopt"), prop=prop)
         reports[tool] = {k: r.get(k) for k in ("evaluations", "distinct_nontrivial", "failure_count", "failures_by_kind", "wall_s", "stats")}
         total_eval += r.get("evaluations", 0)
         total_dist += r.get("distinct_nontrivial", 0)
@@ -80,7 +80,7 @@ def generic(prop, cfg, tier, seed, parts, extra_viol=(), extra_cov=None, extra_k
             if fid not in lst:
                 continue
             try:
-                rr = run_tool(tool, seed, max(150, nq // 8), extra, lift=lift, timeout=900, pigeon=(tool != "pvopt"))
+                rr = run_tool(tool, seed, max(150, nq // 8), extra, lift=lift, timeout=900, pigeon=(tool != "pvopt"), prop=prop)
                 if rr.get("failure_count", 0) > 0:
                     kf.append("KNOWN-FINDING: property=%s %s %s" % (prop, fid, lst[fid]["what"]))
             except Exception as e:
